@@ -408,6 +408,29 @@ def run_matrix(case):
             except Exception as ex:
                 fails.append('second unlock after adding a subkey raised %s: %s' % (type(ex).__name__, str(ex)[:60]))
             expect_locked(key, fails, 'after the second scope', sign=False)
+    elif how == 'mixed-passphrases':
+        # the last component gets a passphrase of its own: unlock() with the first one opens the components before it, fails at that
+        # one - and must leave everything locked (the block is never entered)
+        comps = components(key)
+        if len(comps) >= 2 and isinstance(pw, str):
+            last = comps[-1]
+            try:
+                with key.unlock(pw):
+                    last._key.protect(pw + ' (another one)', SymmetricKeyAlgorithm.AES128, HashAlgorithm.SHA256)
+            except Exception as ex:
+                fails.append('re-protecting the last component inside the scope raised %s: %s' % (type(ex).__name__, str(ex)[:60]))
+            entered = False
+            try:
+                with key.unlock(pw):
+                    entered = True
+                fails.append('unlock with the passphrase of only some components did not raise')
+            except PGPDecryptionError:
+                pass
+            except Exception as ex:
+                fails.append('unlock with the passphrase of only some components raised %s, not PGPDecryptionError' % type(ex).__name__)
+            if entered:
+                fails.append('the block was entered although one component could not be opened')
+            expect_locked(key, fails, 'after unlock() failed at the last component', name=None)
     elif how == 'nested-wrong':
         # a failing unlock inside a successful one must not leave the outer scope's secrets behind afterwards
         try:
@@ -679,7 +702,7 @@ def enumerate_cases(tier, seed):
         kw['rseed'] = rnd.randrange(1 << 32)
         cases.append(kw)
 
-    ends = ['normal', 'exception', 'addsubkey', 'nested-wrong']
+    ends = ['normal', 'exception', 'addsubkey', 'nested-wrong', 'mixed-passphrases']
     pairs = [(c, h) for c in ciphers for h in HASH_NAMES]
     if not thorough:
         # covering sample: every cipher and every hash at least twice, spread over the key types
@@ -693,7 +716,7 @@ def enumerate_cases(tier, seed):
             if not thorough and (pi + ki) % 2 and name.startswith(('rsa', 'dsa')):
                 continue        # RSA private operations are slow: half the sample
             n += 1
-            add(part='matrix', key=name, cipher=c, hash=h, pw=n % len(PASSPHRASES), end=ends[n % 4])
+            add(part='matrix', key=name, cipher=c, hash=h, pw=n % len(PASSPHRASES), end=ends[n % len(ends)])
     n = 0
     for name in names:
         for usage in (254, 255):
